@@ -33,6 +33,11 @@ func (c TypeCase) mainSource(body string) string {
 	if c.Ctx == CtxPredicate {
 		return "set p to pattern at least 1 any begin " + body + " end find all p"
 	}
+	if len(c.Other) > 0 {
+		// both transforms are called for every match, the earlier definition first: what
+		// it assigns must not be visible to the second call either
+		return "set f to transform " + body + " end replace all at least 1 any with f0 '|' f"
+	}
 	return "set f to transform " + body + " end replace all at least 1 any with f"
 }
 
@@ -52,6 +57,16 @@ func checkTypeCase(c TypeCase) (sig, what, status string, ran bool) {
 		return "harness-parse-error", src + ": " + firstLine(err.Error()), "", false
 	}
 	accepted := err == nil
+	// the same program behind a block comment of more than one read buffer, read from a
+	// file (CompileFile, the CLI's -src): same verdict
+	padded := longSep("blockcomment", 4200) + " " + src
+	_, ferr, fp := CompileFileSafe(padded)
+	if fp != nil {
+		return fp.Sig(), "CompileFile panicked on a 4200-byte comment followed by " + src + ": " + fp.Sig(), "", false
+	}
+	if (ferr == nil) != accepted || (ferr != nil && !isGenError(ferr)) {
+		return "file-verdict-differs", fmt.Sprintf("%s: Compile says %s, CompileFile on a file holding a 4200-byte block comment and the same program says %s", src, errLine(err), errLine(ferr)), "", false
+	}
 	status = "reject"
 	if ok {
 		status = "accept"
@@ -87,6 +102,10 @@ func checkTypeCase(c TypeCase) (sig, what, status string, ran bool) {
 				for j := i + 1; j <= len(text); j++ {
 					budget := 2000
 					Exec(c.Stmts, map[string]Value{"match": VS(text[i:j]), "matchLength": VN(j - i)}, &budget)
+					if len(c.Other) > 0 && c.Ctx != CtxPredicate {
+						budget = 2000
+						Exec(c.Other, map[string]Value{"match": VS(text[i:j]), "matchLength": VN(j - i)}, &budget)
+					}
 				}
 			}
 		}()
